@@ -40,10 +40,10 @@ type PropRun struct {
 }
 
 type ReplaySpec struct {
-	PkgDir   string // package directory relative to the repo root, e.g. pkg/lsp
-	TestName string
-	Source   string // complete _test.go source (package clause included)
-	Expect   string // "panic" | "fail": what demonstrates the violation
+	PkgDir      string // package directory relative to the repo root, e.g. pkg/lsp
+	TestName    string
+	Source      string // complete _test.go source (package clause included)
+	Expect      string // "panic" | "fail": what demonstrates the violation
 	MustContain string // text that must occur in the output for the failure to count (the obligation's file:line)
 }
 
@@ -265,6 +265,7 @@ func cmdCheck(args []string) int {
 		r *FnResult
 		o *Obligation
 	}
+	knownFns := knownFunctions(id)
 	var failing []failRec
 	var regressed []string
 	var needsContract []string
@@ -366,6 +367,18 @@ func cmdCheck(args []string) int {
 			if okc[i] {
 				discharged++
 				continue
+			}
+			if nf := e.Fn(f.o.Fn); nf != nil && len(knownFns) > 0 && !knownFns[f.o.Fn] && nf.Parent() == nil {
+				if _, explicit := e.Contracts[f.o.Fn]; !explicit && contractKinds[f.o.Kind] {
+					// an obligation of a function that did not exist when the baseline was taken and has no written
+					// contract (only its package's default contract applies): nothing that held before fails; the
+					// function needs a contract of its own. Its callers are checked without assuming the default.
+					claimed--
+					undecided++
+					needsContract = append(needsContract, f.o.Name+" (new function without a written contract)")
+					fmt.Printf("NEEDS-CONTRACT property=%s %s [%s]: %s is new and has no written contract (not reported as a violation)\n", id, f.o.Name, f.o.Answer, f.o.Fn)
+					continue
+				}
 			}
 			if len(f.r.NewLoopHelpers) > 0 {
 				// the obligation was generated through a helper that is new since the baseline, contains loops and
